@@ -216,31 +216,15 @@ func (e *mvccEngine) backupOp(toks []string) string {
 		}
 		e.bkdir = freshDir()
 		e.refs[i]--
-		var cb nitro.ItemCallback
-		churned := false
-		doChurn := func() {
-			// mutate while the backup is running: delete keys, cut a snapshot, release it, let the collector run
-			for _, k := range churn {
-				e.writers[0].Delete(e.item(k, 0))
-			}
-			cs, _ := e.db.NewSnapshot()
-			e.snaps = append(e.snaps, cs)
-			e.refs = append(e.refs, 0)
-			cs.Close()
-			e.gcQuiesce()
-		}
-		if hasChurn {
-			var once sync.Once
-			cb = func(*nitro.ItemEntry) { once.Do(func() { churned = true; doChurn() }) }
-		}
+		cb, finish := e.churnCallback(churn, hasChurn)
 		err := e.db.StoreToDisk(e.bkdir, s, conc, cb)
-		if hasChurn && !churned {
-			doChurn() // empty snapshot: no callback was made; keep the script's effect
-		}
+		finish()
 		if err != nil {
 			return "err"
 		}
 		return "ok"
+	case "laststeps":
+		return fmt.Sprint(e.lastSteps)
 	case "image":
 		if e.bkdir == "" {
 			return "bad-op"
@@ -349,18 +333,48 @@ func (e *mvccEngine) backupOp(toks []string) string {
 				prev(point, obj)
 			}
 		}
-		err := e.db.StoreToDisk(dir, s, conc, nil)
+		cb, finish := e.churnCallback(churn, hasChurn)
+		err := e.db.StoreToDisk(dir, s, conc, cb)
+		finish()
 		nitro.VerifHook = prev
 		nitro.DiskBlockSize = oldBlock
 		if err != nil {
 			return "store-err"
 		}
+		e.lastSteps = n
 		if !taken {
 			return "none"
 		}
 		return e.loadScratch(img, conc, false)
 	}
 	return "bad-op"
+}
+
+// churnCallback mutates the instance while a backup is running (on the first item callback): deletes keys
+// through writer 0, cuts a snapshot, releases it and lets the collector run. finish() performs the churn after
+// the store if no callback was made (empty snapshot), so that the script's effect is the same either way.
+func (e *mvccEngine) churnCallback(churn []int, has bool) (nitro.ItemCallback, func()) {
+	if !has {
+		return nil, func() {}
+	}
+	churned := false
+	doChurn := func() {
+		for _, k := range churn {
+			e.writers[0].Delete(e.item(k, 0))
+		}
+		cs, _ := e.db.NewSnapshot()
+		e.snaps = append(e.snaps, cs)
+		e.refs = append(e.refs, 0)
+		cs.Close()
+		e.gcQuiesce()
+	}
+	var once sync.Once
+	cb := func(*nitro.ItemEntry) { once.Do(func() { churned = true; doChurn() }) }
+	return cb, func() {
+		if !churned {
+			doChurn()
+		}
+	}
 }
 
 func copyTree(src, dst string) {
